@@ -1044,8 +1044,29 @@ def extras_cases(rng, n):
             continue
         elif k == "unwrap":
             t1, t2, t3 = (rng.choice(["int", "tstr", "bool"]) for _ in range(3))
-            text = "r0 = [~pair, %s]\npair = [%s, %s]\n" % (t3, t1, t2)
             cand = [("int", 1), ("txt", "a"), ("bool", True)]
+            if rng.random() < 0.5:
+                text = "r0 = [~pair, %s]\npair = [%s, %s]\n" % (t3, t1, t2)
+            else:
+                # the unwrapped rule is a CHOICE of array types: every alternative must be tried when it is spliced in (seeded C04-5)
+                t4 = rng.choice(["int", "tstr", "bool"])
+                alts = ["[%s]" % t4, "[%s, %s]" % (t1, t2)]
+                rng.shuffle(alts)
+                form = rng.choice(["plain", "occ", "key"])
+                if form == "plain":
+                    text = "r0 = [~hd, %s]\nhd = %s\n" % (t3, " / ".join(alts))
+                elif form == "occ":
+                    text = "r0 = {log: [* ~hd]}\nhd = %s\n" % " / ".join(alts)
+                else:
+                    text = "r0 = [bool, body: ~hd]\nhd = %s\n" % " / ".join(alts)
+                for x in cand:
+                    for y in cand:
+                        docs = [("arr", [x, y]), ("arr", [x, y, cand[0]]), ("arr", [("bool", True), x]), ("arr", [("bool", True), x, y])]
+                        if form == "occ":
+                            docs = [("map", [(("txt", "log"), d)]) for d in docs] + [("map", [(("txt", "log"), ("arr", [x, x, y, x]))])]
+                        for d in docs:
+                            out.append((text, d))
+                continue
             for x in cand:
                 for y in cand[:2]:
                     for z in cand:
